@@ -192,3 +192,25 @@ Fixpoint lpos_eqb (a b : list (option npos)) : bool :=
   | Some x :: a', Some y :: b' => npos_eqb x y && lpos_eqb a' b'
   | _, _ => false
   end.
+
+(* ---- single-expression replacement (fst_put_one.py:_make_exprlike_fst), positions part -------------------------
+   root._put_src(put, loc, tail=True, head=False, exclude=parent); parent._offset(P, exclude=target, self_=False);
+   put_fst._offset(0, 0, ln, dcol0); then the new sub-tree is linked in place of the target. *)
+Definition rigid (ln0 dcol0 : Z) (new : stree) : stree :=
+  offset_top 1 0 ln0 dcol0 TFalse TTrue None true true new.
+
+Definition expr_replace (lno colo dln dcol : Z) (parent target : nat) (ln0 dcol0 : Z) (new : stree) (t : stree) : stree :=
+  apply_at target (fun _ => rigid ln0 dcol0 new)
+    (apply_at parent (offset_top lno colo dln dcol TFalse TTrue (Some target) true false)
+       (offset_top lno colo dln dcol TTrue TFalse (Some parent) true true t)).
+
+(* rigid move of one span: the standalone tree starts at line 1 column 0 *)
+Definition rigid_pos (ln0 dcol0 : Z) (q : npos) : npos :=
+  let '(l, c, el, ec) := q in (l + ln0, (if l =? 1 then c + dcol0 else c), el + ln0, (if el =? 1 then ec + dcol0 else ec)).
+
+Fixpoint map_pos (f : npos -> npos) (t : stree) : stree :=
+  let 'SNode i p d kids := t in
+  SNode i (option_map f p) d (map (fun k => match k with Some k => Some (map_pos f k) | None => None end) kids).
+
+(* all spans of a standalone tree start at or after (1, 0) *)
+Definition standalone (t : stree) : Prop := forall q, In q (all_pos t) -> let '(l, c, el, ec) := q in pos_le 1 0 l c = true /\ pos_lt l c el ec = true.
